@@ -4,10 +4,11 @@
    wf_pm2, the zero-extension rule) is S_Pm.v.  Proved: the decoders' history list IS the
    specification's move-to-front list (history_list_is_mtf) and the -pm2- round
    trip in full (pm2_roundtrip; pm2_roundtrip_partial is the earlier literal-only
-   special case).  The -pm1- round trip and pm1_zero_extension are decided by
-   the direct oracle of the check (C output =
-   extracted spec expansion on streams produced by the extracted serialisers). *)
-From Lhasa Require Import Base ListN DecBase Generated Decoder PmaCommon Pm2 S_Larc S_Pm P_Decoder P_PmaCommon P_Pm2 P_Pm2Rt P_Pm2Lens P_Pm2Full.
+   special case).  The -pm1- round trip with the zero-extension rule is proved in
+   full as well (pm1_roundtrip, pm1_zero_extension).  The direct oracle of the check (C output =
+   extracted spec expansion on streams produced by the extracted serialisers) ties these
+   theorems about the model to the C on every run. *)
+From Lhasa Require Import Base ListN DecBase Generated Decoder PmaCommon Pm2 S_Larc S_Pm P_Decoder P_PmaCommon P_Pm2 P_Pm2Rt P_Pm2Lens P_Pm2Full Pm1 P_Pm1Rt.
 Local Open Scope N_scope.
 
 (* The starting history holds all 256 byte values, each once, in the PMarc order
@@ -61,6 +62,36 @@ Theorem pm2_roundtrip : forall d tail s0 ks,
     concat os = pm2_denote d.
 Proof. exact P_Pm2Full.pm2_roundtrip. Qed.
 
+(* pm1 in full, with the format's zero-extension rule: for EVERY well-formed
+   stream description (every start header 0..31, byte blocks of every length
+   coding, copies of every length class and position-dependent distance width) and
+   every input that agrees with its serialisation up to trailing zero bytes
+   (zero bytes removed -- the decoder continues with zero bits -- or appended),
+   any read schedule covering the output.  Side condition: output below 2^32 bytes
+   (the C keeps the output position in an unsigned int; the header's length field
+   is 32 bits wide anyway). *)
+Theorem pm1_zero_extension : forall d data s0 ks,
+  wf_pm1 d = true -> nlen (pm1_denote d) < 2 ^ 32 -> zero_ext data (pm1_serialise d) -> pm1_init = Ok s0 ->
+  let L := nlen (pm1_denote d) in
+  L <= sum_N ks -> sum_N ks < 2 ^ 62 ->
+  exists os d',
+    run_reads (pm1_read src_cb) pm1_max_read pm1_block_size
+      (lha_decoder_new s0 {| src_data := data; src_chunks := [] |} L) ks = Ok (os, d') /\
+    concat os = pm1_denote d.
+Proof. exact P_Pm1Rt.pm1_zero_extension. Qed.
+
+Theorem pm1_roundtrip : forall d zeros s0 ks,
+  wf_pm1 d = true -> nlen (pm1_denote d) < 2 ^ 32 -> Forall (fun b => b = 0) zeros -> pm1_init = Ok s0 ->
+  let L := nlen (pm1_denote d) in
+  L <= sum_N ks -> sum_N ks < 2 ^ 62 ->
+  exists os d',
+    run_reads (pm1_read src_cb) pm1_max_read pm1_block_size
+      (lha_decoder_new s0 {| src_data := pm1_serialise d ++ zeros; src_chunks := [] |} L) ks = Ok (os, d') /\
+    concat os = pm1_denote d.
+Proof. exact P_Pm1Rt.pm1_roundtrip_zeros. Qed.
+
 Print Assumptions history_list_is_mtf.
 Print Assumptions pm2_roundtrip_partial.
 Print Assumptions pm2_roundtrip.
+Print Assumptions pm1_zero_extension.
+Print Assumptions pm1_roundtrip.
